@@ -282,3 +282,57 @@ func VerifC04_AddHeaders() {
 	verifAssert(bytes.Equal(nf[4+end:], payload), "payload preserved after the new header block")
 	verifReach("end")
 }
+
+func init() {
+	verifHarnesses["VerifC04_LargeBlock"] = VerifC04_LargeBlock
+}
+
+// verifOpaqueReader is a stream whose RemainingBytes() says whatever its implementation says: a socket reports
+// "unknown" (MaxUint64), a buffered or compressing transport reports the bytes of its UNDERLYING transport (fewer
+// than it can still deliver). The value is arbitrary here; what the reader returns must not depend on it.
+type verifOpaqueReader struct {
+	data []byte
+	rem  uint64
+}
+
+func (r *verifOpaqueReader) Read(p []byte) (int, error) {
+	if len(r.data) == 0 {
+		return 0, io.EOF
+	}
+	n := copy(p, r.data)
+	r.data = r.data[n:]
+	return n, nil
+}
+func (r *verifOpaqueReader) RemainingBytes() uint64 { return r.rem }
+
+// "any content": a header block of a size around the usual buffer thresholds (a long token, a serialized
+// trace context): one header whose value is a long filler with a symbolic tail, next to a small one.
+// Written by the real writer, read back from a stream (whatever RemainingBytes reports) and from a frame.
+func VerifC04_LargeBlock() {
+	size := []int{250, 1010, 1030, 4090, 4100, 70000}[verifParam()]
+	tail := verifStr(2)
+	big := make([]byte, size)
+	for i := range big {
+		big[i] = 'x'
+	}
+	m := map[string]string{"big": string(big) + tail, "k": verifStr(1)}
+	payload := verifBytes(verifChoice(2), 0)
+	out := thrift.NewTMemoryBuffer()
+	fp := &FProtocol{TProtocol: thrift.NewTBinaryProtocolFactoryDefault().GetProtocol(out)}
+	verifAssert(fp.writeHeader(m) == nil, "writeHeader succeeds")
+	wire := out.Bytes()
+	verifAssert(len(wire) == 5+8+3+size+2+8+1+len(m["k"]), "layout: total = 5 + sum(8+|k|+|v|)")
+	verifAssert(wire[0] == 0 && int(binary.BigEndian.Uint32(wire[1:5])) == len(wire)-5, "layout: version byte and big-endian total")
+	stream := append(append([]byte{}, wire...), payload...)
+
+	rd := &verifOpaqueReader{data: append([]byte{}, stream...), rem: verifNondetU64()}
+	got, err := readHeader(rd)
+	verifAssert(err == nil, "stream reader accepts a large header block whatever the transport reports as remaining")
+	verifAssert(len(got) == 2 && got["big"] == m["big"] && got["k"] == m["k"], "stream reader returns the identical map")
+	verifAssert(bytes.Equal(rd.data, payload), "stream reader leaves exactly the payload unread")
+
+	got2, err := getHeadersFromFrame(stream)
+	verifAssert(err == nil, "frame reader accepts a large header block")
+	verifAssert(len(got2) == 2 && got2["big"] == m["big"] && got2["k"] == m["k"], "frame reader returns the identical map")
+	verifReach("end")
+}
